@@ -68,7 +68,13 @@ def run(P, item):
                 res['failed'].append(dict(prop='C17', clause='no interleaving of core operations leaves every unfinished caller blocked', kind='cconc', msg=str(o.res), cfg=cfg.tag(), op=_ps(progs), witness=w))
             continue
         if o.status == 'panic':
-            res['failed'].append(dict(prop='C16', clause='no panic', kind='cconc', msg=str(o.res), cfg=cfg.tag(), op=_ps(progs), witness=None)); continue
+            w = None
+            if ctx.check() and getattr(ctx, 'stash', None):
+                hh = ctx.stash['h']; m = nice_model(ctx, z3.BoolVal(False), hh, ctx.solver.model())
+                if m is not None:
+                    w = model_witness(ctx, m, hh, dict(op='conc'))
+                    w.update(progs=progs, newkeys=[_ev(m, k) for k in ctx.stash['newk']], locks=[[str(x) for x in e] for e in ctx.events[ctx.stash['n0']:] if e[0] in ('lock', 'unlock')], panic=str(o.res))
+            res['failed'].append(dict(prop='C16', clause='no panic', kind='cconc', msg=str(o.res), cfg=cfg.tag(), op=_ps(progs), witness=w)); continue
         d = o.res; h = d['h']; claims = []
         def tracked(sn):
             ks = [k for k, v in sn['store']]; q = sn['queue']
@@ -79,6 +85,11 @@ def run(P, item):
         if cfg.has_limit:
             claims.append(('C18', 'at quiescence the cache holds at most `limit` entries', simp(len(d['snap']['store']) <= cfg.limit)))
             claims.append(('C18', 'after one more sequential store the cache holds at most `limit` entries', simp(len(d['snap2']['store']) <= cfg.limit)))
+        if cfg.has_mem:
+            # memory bound at quiescence (sizes of the values actually stored)
+            def total(sn): return sum([h.SIZE(v) for k, v in sn['store']], z3.IntVal(0)) if sn['store'] else z3.IntVal(0)
+            claims.append(('C18', 'at quiescence the stored values take at most max_memory bytes', simp(total(d['snap']) <= cfg.mem)))
+            claims.append(('C05', 'at quiescence the stored values take at most max_memory bytes', simp(total(d['snap']) <= cfg.mem)))
         # values: a lookup returns only a value that was stored for that key at some point
         for rs in d['rs']:
             for (opn, k, v, r) in rs:
@@ -109,6 +120,7 @@ def run(P, item):
                 if model is None: continue
                 w = model_witness(ctx, model, h, dict(op='conc'))
                 w.update(progs=progs, newkeys=[_ev(model, k) for k in d['newk']], newvals=[_ev(model, v) for rs in d['rs'] for (o2, k2, v, r2) in rs if v is not None],
+                         newsizes=[_ev(model, h.SIZE(v)) for rs in d['rs'] for (o2, k2, v, r2) in rs if v is not None],
                          locks=[[str(x) for x in e] for e in d['locks']], probe=[_ev(model, d['pk']), _ev(model, d['pv'])],
                          keys=[_ev(model, k) for k, v in d['snap']['store']], queue=[_ev(model, k) for k in d['snap']['queue']],
                          c07=[_ev(model, c07[0]), _ev(model, c07[1])] if c07 else None)
@@ -138,8 +150,10 @@ def replay(f, w):
             spec = op[1]; k = w['entries'][spec[1]]['key'] if spec[0] == 'pre' else w['newkeys'][spec[1]]
             if op[0] == 'get': ops.append(f'get k{k}')
             else:
-                v = (w.get('newvals') or [0] * 8)[vi] if vi < len(w.get('newvals') or []) else 900 + vi; vi += 1
-                ops.append(f'{op[0]} k{k} {v} 0')
+                v = (w.get('newvals') or [0] * 8)[vi] if vi < len(w.get('newvals') or []) else 900 + vi
+                sz = (w.get('newsizes') or [])[vi] if vi < len(w.get('newsizes') or []) else 0
+                vi += 1
+                ops.append(f'{op[0]} k{k} {v} {sz if isinstance(sz, int) else 0}')
         L.append(f'cthread {ti} ' + ' / '.join(ops))
     ev = [e for e in w['locks'] if e[0] == 'lock']
     L.append('csched ' + ' '.join([f"{e[1]}:{e[4]}:{e[5]}" for e in ev] + [f"{b[0]}:{b[3]}:1:a" for b in (w.get('attempts') or [])]))
@@ -151,16 +165,25 @@ def replay(f, w):
     if not outs: return False, 'no output: ' + err[-200:], []
     lines = outs[0]
     info = ' '.join(l for l in lines if l.startswith('conc_progress'))
+    if f.get('clause') == 'no panic' or 'panic' in w:
+        pl = [l for l in lines if '<panic' in l]
+        if pl: return True, 'native thread driven along the witness schedule panicked: ' + pl[0][:200] + ' ' + info, lines
+        return False, 'no native panic ' + info, lines
     if any(l.startswith('conc_blocked') for l in lines):
         return (f['prop'] == 'C17'), 'native threads driven along the witness schedule never return ' + info, lines
     if f['prop'] == 'C17': return False, 'native threads all returned ' + info, lines
     # segments: dump after the concurrent phase, final dump after the probe
     segs = []; cur = None
     for l in lines:
-        if l.startswith('store '): cur = cur if cur is not None else dict(store=[], queue=[]); cur['store'].append(l.split()[1])
+        if l.startswith('store '):
+            cur = cur if cur is not None else dict(store=[], queue=[], bytes=0); cur['store'].append(l.split()[1]); cur['bytes'] = cur.get('bytes', 0) + int(l.split()[5])
         elif l.startswith('queue '):
-            cur = cur if cur is not None else dict(store=[], queue=[]); cur['queue'] = l.split()[1:]; segs.append(cur); cur = None
+            cur = cur if cur is not None else dict(store=[], queue=[], bytes=0); cur['queue'] = l.split()[1:]; segs.append(cur); cur = None
     dev = []
+    if 'max_memory bytes' in f.get('clause', ''):
+        if segs and w.get('max_memory') is not None and segs[0].get('bytes', 0) > w['max_memory']:
+            return True, f"natively the values stored after the concurrent phase take {segs[0]['bytes']} bytes with max_memory = {w['max_memory']} (keys {segs[0]['store']}) " + info, lines
+        return False, f"natively the stored values take {segs[0].get('bytes', 0) if segs else '?'} bytes (max_memory {w.get('max_memory')}) " + info, lines
     if f['prop'] == 'C07':
         if segs and w.get('c07'):
             q = segs[0]['queue']; hit, other = 'k%d' % w['c07'][0], 'k%d' % w['c07'][1]
